@@ -51,11 +51,14 @@ func runWorker(self, id, tier string, shard, n int, seed int64, tmp string) work
 	var wo workerOutcome
 	out := filepath.Join(tmp, fmt.Sprintf("w%d.json", shard))
 	skipFile := filepath.Join(tmp, fmt.Sprintf("w%d.skiplist", shard))
+	// the wall-clock guard of the tier counts from the first attempt: a shard that is restarted after a skipped case
+	// gets what is left of the budget, not a new one
+	shardStart := "VCHECK_START=" + strconv.FormatInt(time.Now().UnixNano(), 10)
 	for attempt := 0; attempt < 16; attempt++ {
 		os.Remove(out)
 		os.Remove(out + ".skip")
 		cmd := exec.Command(self, "worker", id, tier, strconv.Itoa(shard), strconv.Itoa(n), strconv.FormatInt(seed, 10), out)
-		cmd.Env = append(os.Environ(), "VCHECK_SKIP="+skipFile, "GOMAXPROCS=2", "GOTRACEBACK=single")
+		cmd.Env = append(os.Environ(), "VCHECK_SKIP="+skipFile, "GOMAXPROCS=2", "GOTRACEBACK=single", shardStart)
 		var eb bytes.Buffer
 		cmd.Stderr = &capWriter{buf: &eb, cap: 1 << 16}
 		cmd.Stdout = os.Stderr
@@ -103,7 +106,7 @@ func runWorker(self, id, tier string, shard, n int, seed int64, tmp string) work
 		crashErr := eb.String()
 		tr := filepath.Join(tmp, fmt.Sprintf("w%d.trace", shard))
 		cmd = exec.Command(self, "worker", id, tier, strconv.Itoa(shard), strconv.Itoa(n), strconv.FormatInt(seed, 10), out)
-		cmd.Env = append(os.Environ(), "VCHECK_SKIP="+skipFile, "VCHECK_TRACE="+tr, "GOMAXPROCS=2", "GOTRACEBACK=single")
+		cmd.Env = append(os.Environ(), "VCHECK_SKIP="+skipFile, "VCHECK_TRACE="+tr, "GOMAXPROCS=2", "GOTRACEBACK=single", shardStart)
 		var eb2 bytes.Buffer
 		cmd.Stderr = &capWriter{buf: &eb2, cap: 1 << 16}
 		cmd.Stdout = os.Stderr
